@@ -158,9 +158,9 @@ func vrChoice(in *Interp, fr *frame, fn *ssa.Function, a []Value) (Value, bool) 
 		return mkInt64(0), true
 	}
 	t := in.ex.input(argStr(a[0]), SoBV64)
-	in.ex.Assume(in.tb.Bin(OpBvUlt, t, in.tb.Const(SoBV64, uint64(n))))
-	v := in.ex.Concretize(t)
-	return mkInt64(int64(v)), true
+	k := in.ex.Choice(int(n))
+	in.ex.Bind(t, uint64(k))
+	return mkInt64(int64(k)), true
 }
 
 func vrBytes(in *Interp, fr *frame, fn *ssa.Function, a []Value) (Value, bool) {
